@@ -24,6 +24,7 @@ import (
 	"github.com/free5gc/go-gtp5gnl"
 	"github.com/free5gc/go-upf/internal/forwarder"
 	"github.com/free5gc/go-upf/internal/logger"
+	"github.com/free5gc/go-upf/internal/report"
 )
 
 type ieSpec struct {
@@ -325,6 +326,7 @@ type gtp5gOut struct {
 	Reqs   []forwarder.SimRequest `json:"reqs"`
 	TopErr bool                   `json:"top_err"`
 	Abs    []absIE                `json:"abs"`
+	AbsPanic string               `json:"abs_panic"`
 	Dec    interface{}            `json:"dec"`
 }
 
@@ -396,8 +398,16 @@ func gtp5gOne(g *forwarder.Gtp5g, k *forwarder.SimKernel, c gtp5gCase) (out gtp5
 			out.Reqs = append(append([]forwarder.SimRequest{}, out.Reqs...), k.Take()...)
 		}
 	}()
-	k.Take()
-	children := buildIEs(c.IEs)
+	k.Reset()
+	var children []*ie.IE
+	func() {
+		defer func() {
+			if p := recover(); p != nil {
+				panic(fmt.Sprintf("badcase: constructing the IE: %v", p)) // go-pfcp constructor, not go-upf
+			}
+		}()
+		children = buildIEs(c.IEs)
+	}()
 	var req *ie.IE
 	var parsed []*ie.IE
 	var perr error
@@ -434,7 +444,15 @@ func gtp5gOne(g *forwarder.Gtp5g, k *forwarder.SimKernel, c gtp5gCase) (out gtp5
 	if perr != nil {
 		out.TopErr = true
 	} else {
-		out.Abs = absList(parsed)
+		func() {
+			defer func() {
+				if p := recover(); p != nil {
+					out.AbsPanic = fmt.Sprintf("%v", p) // a go-pfcp accessor panicked; the driver is still run below
+					out.Abs = nil
+				}
+			}()
+			out.Abs = absList(parsed)
+		}()
 	}
 	if err := run(); err != nil {
 		out.Err = "error:" + err.Error()
@@ -448,6 +466,11 @@ func gtp5gOne(g *forwarder.Gtp5g, k *forwarder.SimKernel, c gtp5gCase) (out gtp5
 	return out
 }
 
+type nopHandler struct{}
+
+func (nopHandler) NotifySessReport(report.SessReport)      {}
+func (nopHandler) PopBufPkt(uint64, uint16) ([]byte, bool) { return nil, false }
+
 func init() {
 	modes["gtp5g"] = func(in json.RawMessage) (interface{}, error) {
 		var cases []gtp5gCase
@@ -460,6 +483,7 @@ func init() {
 		if err != nil {
 			return nil, err
 		}
+		g.HandleReport(nopHandler{})
 		out := make([]gtp5gOut, len(cases))
 		for i, c := range cases {
 			out[i] = gtp5gOne(g, k, c)
